@@ -699,6 +699,13 @@ pub fn shape_class(g: &Grammar) -> String {
     if g.hidden_left_recursion() {
         return "hidden-left-recursion".to_string();
     }
+    if g.rules[g.start]
+        .body
+        .as_ref()
+        .is_some_and(|b| b.contains(&|r| matches!(r, Rx::Rename(_))))
+    {
+        return "rename-in-start-rule".to_string();
+    }
     let mut f = vec![];
     let has = |p: &dyn Fn(&Rx) -> bool| g.contains(p);
     if has(&|r| matches!(r, Rx::Choice(_))) {
